@@ -2007,3 +2007,279 @@ func (m *Model) ruleXATTRROUNDTRIP(r *Results) {
 		r.info(rule, "instances", "-", "no decode / edit / re-encode round trip found")
 	}
 }
+
+// ---------------------------------------------------------------- R-LASTID
+
+// LastInsertId is meaningful only after an INSERT that inserted: after `ON CONFLICT DO NOTHING`
+// (or DO UPDATE / OR IGNORE) it returns the rowid of some earlier, unrelated insert on the
+// connection. Every LastInsertId must therefore follow a plain INSERT.
+func (m *Model) ruleLASTID(r *Results) {
+	const rule = "R-LASTID"
+	n := 0
+	for _, fn := range m.Funcs {
+		m.eachCall(fn, func(c ssa.CallInstruction) {
+			if !c.Common().IsInvoke() || c.Common().Method.Name() != "LastInsertId" {
+				return
+			}
+			n++
+			key := m.declName(fn) + " / LastInsertId follows a plain INSERT"
+			res, _ := m.resolve(c.Common().Value, topFrame(fn))
+			var site *SQLSite
+			if ex, ok := res.(*ssa.Extract); ok {
+				site = m.siteOfCallValue(ex.Tuple)
+			}
+			if site == nil {
+				r.undecided(rule, key, m.instrPos(c), "cannot tell which statement's result this is")
+				return
+			}
+			bad := ""
+			for _, v := range site.Variants {
+				st := v.Stmt()
+				if st == nil || st.Kind != sqlp.SInsert {
+					bad = "the statement is not a single INSERT"
+					continue
+				}
+				if st.Conflict != nil {
+					bad = "the INSERT has an ON CONFLICT clause (" + st.Shape() + ")"
+				}
+				if strings.Contains(strings.ToUpper(v.SQL), "OR IGNORE") || strings.Contains(strings.ToUpper(v.SQL), "OR REPLACE") {
+					bad = "the INSERT has a conflict-resolution clause"
+				}
+			}
+			r.check(bad == "", rule, key, m.instrPos(c), "the id is that of the row this statement inserted", bad+": when no row is inserted LastInsertId returns the rowid of an earlier insert on the connection, which is then used as this row's id (e.g. as a collection id: operations land in another collection)")
+		})
+	}
+	if n == 0 {
+		r.info(rule, "instances", "-", "LastInsertId is not used")
+	}
+}
+
+// ---------------------------------------------------------------- R-VIEW-STALE
+
+// A view query brings the index up to date unless the caller asked for a stale result: the
+// synchronous update may be skipped only for the documented values of "stale" (true, "ok",
+// "updateAfter"), i.e. it is reached on the NOT-equal edge of every test of that parameter. An
+// allow-list (`case nil, false:`) silently treats every other spelling as "stale is fine".
+func (m *Model) ruleVIEWSTALE(r *Results) {
+	const rule = "R-VIEW-STALE"
+	// the index updater: the function containing the transaction closure that writes views.lastCas
+	var updater *ssa.Function
+	for _, s := range m.Sites {
+		for _, v := range s.Variants {
+			if st := v.Stmt(); st != nil && st.Kind == sqlp.SUpdate && lower(st.Table) == "views" {
+				f := s.Fn
+				for f.Parent() != nil {
+					f = f.Parent()
+				}
+				for _, tc := range m.txnClosures() {
+					if m.reachableLocal(tc.Fn)[s.Fn] || tc.Fn == s.Fn {
+						g := tc.Fn
+						for g.Parent() != nil {
+							g = g.Parent()
+						}
+						updater = g
+					}
+				}
+				_ = f
+			}
+		}
+	}
+	if updater == nil {
+		r.undecided(rule, "anchors", "-", "view index updater unresolved")
+		return
+	}
+	fromStaleDirect := func(v ssa.Value) bool { return false }
+	var fromStale func(v ssa.Value, depth int, seen map[ssa.Value]bool) bool
+	fromStale = func(v ssa.Value, depth int, seen map[ssa.Value]bool) bool {
+		v = stripConv(v)
+		if depth > 8 || seen[v] {
+			return false
+		}
+		seen[v] = true
+		switch x := v.(type) {
+		case *ssa.Lookup:
+			if c, ok := stripConv(x.Index).(*ssa.Const); ok && c.Value != nil && c.Value.Kind() == constant.String && constant.StringVal(c.Value) == "stale" {
+				return true
+			}
+		case *ssa.Extract:
+			return fromStale(x.Tuple, depth+1, seen)
+		case *ssa.Phi:
+			for _, e := range x.Edges {
+				if fromStale(e, depth+1, seen) {
+					return true
+				}
+			}
+		case *ssa.TypeAssert:
+			return fromStale(x.X, depth+1, seen)
+		case *ssa.UnOp:
+			if x.Op == token.MUL {
+				if al, ok := x.X.(*ssa.Alloc); ok {
+					for _, st := range cellStores(al) {
+						if fromStale(st.Val, depth+1, seen) {
+							return true
+						}
+					}
+				}
+			}
+		case *ssa.Call:
+			// a getter that hands the parameter's value back (not a classifier returning constants)
+			if callee := x.Common().StaticCallee(); callee != nil && m.inPkg(callee) && len(callee.Blocks) > 0 {
+				any := false
+				for _, ret := range returnsOf(callee) {
+					for _, res := range ret.Results {
+						if k, ok := stripConv(res).(*ssa.Const); ok && k.Value == nil {
+							continue // "absent"
+						}
+						if !fromStale(res, depth+1, seen) {
+							return false
+						}
+						any = true
+					}
+				}
+				return any
+			}
+		}
+		return false
+	}
+	fromStaleDirect = func(v ssa.Value) bool { return fromStale(v, 0, map[ssa.Value]bool{}) }
+	// The stale parameter is only ever compared with constants, so its effect is decided by a few
+	// abstract values: absent (nil), the three documented ones, and "anything else".
+	type staleVal struct {
+		name  string
+		isNil bool
+		c     constant.Value // nil for "anything else"
+	}
+	vals := []staleVal{
+		{"<absent>", true, nil},
+		{"<any other value, e.g. the string \"false\">", false, nil},
+		{"true", false, constant.MakeBool(true)},
+		{"\"ok\"", false, constant.MakeString("ok")},
+		{"\"updateAfter\"", false, constant.MakeString("updateAfter")},
+	}
+	matches := func(a staleVal, k *ssa.Const) bool {
+		if k.Value == nil {
+			return a.isNil
+		}
+		if a.c == nil || a.c.Kind() != k.Value.Kind() {
+			return false
+		}
+		return constant.Compare(a.c, token.EQL, k.Value)
+	}
+	var cutFor func(f *ssa.Function, a staleVal, depth int) (*cut, int)
+	var helperResults func(call *ssa.Call, a staleVal, depth int) []*ssa.Const
+	cutFor = func(f *ssa.Function, a staleVal, depth int) (*cut, int) {
+		c := newCut()
+		decided := 0
+		for _, iff := range allIfs(f) {
+			cd := condOf(iff)
+			if cd.Y == nil {
+				continue
+			}
+			eq, ok := cd.equalEdge()
+			if !ok {
+				continue
+			}
+			x, y := stripConv(cd.X), stripConv(cd.Y)
+			var k *ssa.Const
+			var other ssa.Value
+			if kc, ok := y.(*ssa.Const); ok {
+				k, other = kc, x
+			} else if kc, ok := x.(*ssa.Const); ok {
+				k, other = kc, y
+			} else {
+				continue
+			}
+			known, equal := false, false
+			if fromStaleDirect(other) {
+				known, equal = true, matches(a, k)
+			} else if call, ok := other.(*ssa.Call); ok && depth < 2 {
+				if rs := helperResults(call, a, depth); len(rs) == 1 && rs[0].Value != nil && k.Value != nil {
+					known, equal = true, constant.Compare(rs[0].Value, token.EQL, k.Value)
+				}
+			}
+			if !known {
+				continue
+			}
+			decided++
+			for _, sc := range iff.Block().Succs {
+				if (sc == eq) != equal {
+					c.cutEdge(iff.Block(), sc)
+				}
+			}
+		}
+		return c, decided
+	}
+	helperResults = func(call *ssa.Call, a staleVal, depth int) []*ssa.Const {
+		h := call.Common().StaticCallee()
+		if h == nil || !m.inPkg(h) || len(h.Blocks) == 0 || h.Signature.Results().Len() != 1 {
+			return nil
+		}
+		c, decided := cutFor(h, a, depth+1)
+		if decided == 0 {
+			return nil
+		}
+		reach := entryReach(h, c)
+		var out []*ssa.Const
+		for _, ret := range returnsOf(h) {
+			if !reach[ret.Block().Index] {
+				continue
+			}
+			k, ok := stripConv(ret.Results[0]).(*ssa.Const)
+			if !ok {
+				return nil
+			}
+			dup := false
+			for _, o := range out {
+				if o.Value != nil && k.Value != nil && constant.Compare(o.Value, token.EQL, k.Value) {
+					dup = true
+				}
+			}
+			if !dup {
+				out = append(out, k)
+			}
+		}
+		return out
+	}
+	n := 0
+	for _, fn := range m.Funcs {
+		if !m.inPkg(fn) || fn.Parent() != nil {
+			continue
+		}
+		m.eachCall(fn, func(c ssa.CallInstruction) {
+			if c.Common().StaticCallee() != updater {
+				return
+			}
+			if _, isGo := c.(*ssa.Go); isGo {
+				return
+			}
+			reach := map[string]bool{}
+			decidedAny := false
+			for _, a := range vals {
+				ct, d := cutFor(fn, a, 0)
+				if d > 0 {
+					decidedAny = true
+				}
+				reach[a.name] = entryReach(fn, ct)[c.Block().Index]
+			}
+			if !decidedAny {
+				return
+			}
+			n++
+			var problems []string
+			for _, a := range vals[:2] {
+				if !reach[a.name] {
+					problems = append(problems, "for stale = "+a.name+" the index is not brought up to date before the query")
+				}
+			}
+			for _, a := range vals[2:] {
+				if reach[a.name] {
+					problems = append(problems, "for stale = "+a.name+" the index is updated synchronously although a stale result was asked for")
+				}
+			}
+			r.check(len(problems) == 0, rule, m.declName(fn)+" / index updated unless a stale result was asked for", m.instrPos(c), "the synchronous index update is skipped exactly for stale = true, \"ok\" and \"updateAfter\"", strings.Join(problems, "; ")+": a query that did not ask for a stale result is served from an index that misses recent writes")
+		})
+	}
+	if n == 0 {
+		r.undecided(rule, "instances", "-", "no caller of the index updater tests the stale parameter")
+	}
+}
